@@ -32,7 +32,8 @@ func (c17) Rule() string {
 		"wrapper} x registration permutation on two fixed carriers; part 2 (seeded): 1..3 hops, the renamed node at a drawn position of a generated carrier tree, a second differently-versioned " +
 		"sender for the third-party comparison; oracles: the wire family name leaving any version is foo's key, GetTypeKey of the newest name is foo's key for every permutation, a message decodes " +
 		"to the receiver's own current type (v0: opaque, re-encoded verbatim), Is(received, locally built equivalent) holds, copies from different senders are Is-equal both ways at every " +
-		"receiver, registering a second migration to the same type panics; distinct = (versions on the route x form x permutation x carrier shape); non-trivial = route has >= 1 hop"
+		"receiver, registering a second migration to the same type panics (also when it repeats the first or names another name of the same chain); at v2 also: renames changing the receiver kind, " +
+		"a renamed multi-cause type with its decoder, a typed nil pointer of a renamed type, a renamed protobuf-message type; at every version: the library's own os.PathError rename, a pure package move; distinct = (versions on the route x form x permutation x carrier shape); non-trivial = route has >= 1 hop"
 }
 
 // ---- code versions ----------------------------------------------------------
